@@ -39,9 +39,8 @@ FAKE_DIR = hashlib.md5(b"vd-c12-absent-dir").hexdigest() + ".dir"  # noqa: S324
 EMPTY_DIR = ref.ref_tree_oid({})
 
 
-def _place_empty(pair):
-    """(trees, None | position) -> trees, with one EMPTY directory ({}) inserted at the position."""
-    trees, pos = pair
+def _place_empty(trees, pos):
+    """trees, with one EMPTY directory ({}) inserted at the position (None: no empty directory)."""
     trees = list(trees)
     if pos is not None:
         trees.insert(pos % (len(trees) + 1), {})
@@ -59,11 +58,11 @@ def _world():
         # 2-4 non-empty trees; in about two worlds of five additionally one EMPTY directory (a staged directory
         # without files -> the "[]" listing object, which lists nothing) that pushes / fetches / status queries /
         # external deletions address like any other directory
-        "trees": st.tuples(st.lists(tree, min_size=2, max_size=4),
-                           st.sampled_from([None, None, None, 0, 2])).map(_place_empty),
+        "trees": st.lists(tree, min_size=2, max_size=4),
         "loose": st.lists(content, max_size=2),
         "remotes": st.sampled_from([["generic"], ["local"], ["generic", "generic"], ["generic", "local"],
                                     ["local", "generic"], ["local", "local"], ["generic", "local", "generic"]]),
+        "empty_dir": st.sampled_from([None, None, None, 0, 2]),
     })
 
 
@@ -222,7 +221,7 @@ class IndexMachine(TraceMachine):
     @initialize(world=_world())
     @traced
     def init(self, world):
-        self.w = build_world(self.dir, world["trees"], world["loose"])
+        self.w = build_world(self.dir, _place_empty(world["trees"], world.get("empty_dir")), world["loose"])
         kinds = world.get("remotes") or [world["remote_kind"]]  # "remote_kind": replay files of the 1-remote era
         self.tmp_dir = os.path.join(self.dir, "tmp")  # shared by all remotes
         os.makedirs(self.tmp_dir)
